@@ -151,6 +151,9 @@ HOMOG = {
     "flipud": [(0, 1)], "fliplr": [(0, 1)], "astype": [(0, 1)], "append": [(0, 1), (1, 1)],
     "setitem": [(0, 1), (2, 1)],
 }
+ZERO_PRESERVING = {"real", "imag", "sum", "mean", "getitem", "fft", "ifft", "fft2", "ifft2", "rfft", "irfft",
+                   "rfft2", "irfft2", "fftshift", "ifftshift", "T", "flatten", "reshape", "loopsum", "abs", "std",
+                   "var", "sort", "max", "min", "astype", "flipud", "fliplr"}
 SAME_DEGREE = {"maximum", "append", "setitem", "where3", "paths", "clip"}
 # functions that may yield complex values from real arguments
 COMPLEX_FNS = {"fft", "ifft", "fft2", "ifft2", "rfft", "rfft2", "userfft"}
@@ -816,6 +819,8 @@ def apply_fn(name, args):
         return fn_abs(args[0])
     if name == "conj" and len(args) == 1 and isinstance(args[0], Rat):
         return args[0].conj()
+    if name in ZERO_PRESERVING and args and isinstance(args[0], Rat) and args[0].is_zero():
+        return Rat.const(0)
     return Rat.atom(Fn(name, args))
 
 
